@@ -845,24 +845,119 @@ func c5Atomic(c *Ctx) {
 	if !c.Anchor("R5.6", "AtomicLevel.Enabled/Level/SetLevel", en != nil && lv != nil && sl != nil) {
 		return
 	}
-	for k, r := range Returns(en) {
-		d := Desc(RetVals(r)[0])
-		c.Check(d == "Enabled(Level(lvl), l)", "R5.6", en.String(), "rereads#"+itoa(k+1), r.Pos(), "Enabled re-reads the current level on every call (%s)", d)
+	// evaluated concretely (helpers and zapcore.Level's methods inline): with the atomic's Load forked over every level
+	// from one below to one above the range, Level() returns what was loaded, Enabled(l) answers l >= loaded for
+	// every l - on each call afresh (exactly one Load per call) - and SetLevel(l) stores exactly l
+	levels := []int64{-2, -1, 0, 1, 2, 3, 4, 5, 6}
+	inl := func(h *ssa.Function) bool {
+		return h.Pkg != nil && (h.Pkg.Pkg.Path() == ZapPath || h.Pkg.Pkg.Path() == CorePath)
 	}
-	for k, r := range Returns(lv) {
-		d := Desc(RetVals(r)[0])
-		c.Check(strings.Contains(d, "Load(lvl.l)"), "R5.6", lv.String(), "atomic-load#"+itoa(k+1), r.Pos(), "Level is an atomic Load (%s)", d)
-	}
-	n := 0
-	for _, cl := range Calls(sl) {
-		if IsCallTo(cl, "(*sync/atomic.Int32).Store") {
-			n++
-			d := Desc(Args(cl)[1])
-			c.Check(Desc(Args(cl)[0]) == "lvl.l" && strings.HasSuffix(d, "(l)"), "R5.6", sl.String(), "atomic-store", cl.Pos(), "SetLevel stores exactly the given level atomically (%s)", d)
+	forkLoad := func(in ssa.Instruction, st *ConcState) []ConcAlt {
+		cl, ok := in.(*ssa.Call)
+		if !ok || !IsCallTo(cl, "(*sync/atomic.Int32).Load") {
+			return nil
 		}
+		var alts []ConcAlt
+		for _, cur := range levels {
+			alts = append(alts, ConcAlt{Ev: "load=" + itoa(int(cur)), Ints: map[ssa.Value]int64{cl: cur}})
+		}
+		return alts
 	}
-	if n != 1 {
-		c.Bad("R5.6", sl.String(), "atomic-store", sl.Pos(), "expected one atomic Store, found %d", n)
+	retInt := func(in ssa.Instruction, st *ConcState) string {
+		if r, ok := in.(*ssa.Return); ok && len(r.Results) == 1 {
+			if k, known := st.Int(r.Results[0]); known {
+				return "ret=" + itoa(int(k))
+			}
+			return "ret=?" + st.Desc(r.Results[0])
+		}
+		return ""
+	}
+	{
+		var bad []string
+		n := 0
+		for _, l := range levels {
+			lv0 := l
+			seqs, trunc := ConcPaths(en, ConcCfg{
+				Inline: inl, InlineAny: inl, Fork: forkLoad, Event: retInt,
+				Conc: func(d string) (int64, bool) {
+					if len(en.Params) == 2 && d == en.Params[1].Name() {
+						return lv0, true
+					}
+					return 0, false
+				},
+			})
+			if trunc || len(seqs) == 0 {
+				bad = append(bad, "exploration incomplete")
+				continue
+			}
+			for _, sq := range seqs {
+				n++
+				f := strings.Split(sq, " ; ")
+				ok := len(f) == 2 && strings.HasPrefix(f[0], "load=") && strings.HasPrefix(f[1], "ret=")
+				if ok {
+					cur := parseIntOr(f[0][5:], 99)
+					want := int64(0)
+					if lv0 >= cur {
+						want = 1
+					}
+					ok = f[1] == "ret="+itoa(int(want))
+				}
+				if !ok {
+					bad = append(bad, "l="+itoa(int(lv0))+": "+sq)
+				}
+			}
+		}
+		if len(bad) > 3 {
+			bad = append(bad[:3:3], "…")
+		}
+		c.Check(len(bad) == 0 && n >= len(levels)*len(levels), "R5.6", en.String(), "rereads", en.Pos(), "Enabled(l) loads the current level once, on this very call, and answers l >= current - evaluated for every pair of levels in -2..6 (%d evaluations): %v", n, bad)
+	}
+	{
+		var bad []string
+		seqs, trunc := ConcPaths(lv, ConcCfg{Inline: inl, InlineAny: inl, Fork: forkLoad, Event: retInt})
+		for _, sq := range seqs {
+			f := strings.Split(sq, " ; ")
+			if len(f) != 2 || !strings.HasPrefix(f[0], "load=") || f[1] != "ret="+f[0][5:] {
+				bad = append(bad, sq)
+			}
+		}
+		c.Check(!trunc && len(seqs) >= len(levels) && len(bad) == 0, "R5.6", lv.String(), "atomic-load", lv.Pos(), "Level() is one atomic Load and returns exactly the level loaded (every level -2..6): %v", bad)
+	}
+	{
+		var bad []string
+		n := 0
+		for _, l := range levels {
+			lv0 := l
+			seqs, trunc := ConcPaths(sl, ConcCfg{
+				Inline: inl, InlineAny: inl,
+				Conc: func(d string) (int64, bool) {
+					if len(sl.Params) == 2 && d == sl.Params[1].Name() {
+						return lv0, true
+					}
+					return 0, false
+				},
+				Event: func(in ssa.Instruction, st *ConcState) string {
+					if cl, ok := in.(*ssa.Call); ok && IsCallTo(cl, "(*sync/atomic.Int32).Store") {
+						where := st.Desc(Args(cl)[0])
+						if k, known := st.Int(Args(cl)[1]); known {
+							return "store(" + where + "," + itoa(int(k)) + ")"
+						}
+						return "store(" + where + ",?)"
+					}
+					return ""
+				},
+			})
+			for _, sq := range seqs {
+				n++
+				if sq != "store("+sl.Params[0].Name()+".l,"+itoa(int(lv0))+")" {
+					bad = append(bad, "l="+itoa(int(lv0))+": "+sq)
+				}
+			}
+			if trunc || len(seqs) == 0 {
+				bad = append(bad, "exploration incomplete")
+			}
+		}
+		c.Check(len(bad) == 0 && n >= len(levels), "R5.6", sl.String(), "atomic-store", sl.Pos(), "SetLevel(l) is one atomic Store of exactly l into the shared cell (every level -2..6): %v", bad)
 	}
 	// the counter an AtomicLevel points at is what its copies (held by cores and loggers) share: a method may
 	// install a counter only where there was none (lazy allocation), never replace one
